@@ -33,7 +33,13 @@ RULE = ('Generated documents (names incl. non-ASCII, default/prefixed/undeclared
         'tree, writing into the attribute mapping parse_root returned); always parse(s) -> edits -> parse(s) with the same parser '
         'variant within <= 2 other calls; every tree handed out is compared with the independent reader\'s tree of THAT text, must '
         'share no node with a tree handed out before, must equal (deep snapshot) the first tree handed out for the text, and after '
-        'every call every tree the call was not given is compared with its snapshot before. '
+        'every call every tree the call was not given is compared with its snapshot before; about 40 % of the re-parse histories '
+        'contain 1-3 calls (any helper, either parser variant) that MUST RAISE - text not well-formed (short, or with the defect '
+        'beyond the first 64K characters), text with a lone surrogate (short / beyond 64K / beyond 128K characters of an otherwise '
+        'fine document), a text node > 10 000 000 octets without huge_tree, validated_element with a tag / attribute requirement '
+        'the root does not meet; the exception class is the documented one (decided from the text and an independent reading), '
+        'nothing is handed out, no tree changes, and the good parses that follow (same parser variant first, mostly the other one '
+        'too, 30 % of a well-formed document > 64K characters with 2-4-octet characters) are checked like any other. '
         'A case is one (kind, document/program, arguments); non-trivial = the tree has >= 2 elements or >= 1 attribute '
         '(documents) / >= 2 operations (programs, histories, sessions).')
 ASSUMES = ['libxml2 parser/serialiser (lxml 6.1.3) are oracles of the model: the parser is represented by the event stream of the '
@@ -622,6 +628,8 @@ def hand_out(via, text, root_tag):
     if via == 'to_ele_huge_pos': return xml_.to_ele(text, True)
     if via == 'validated': return xml_.validated_element(text)
     if via == 'validated_tags': return xml_.validated_element(text, tags=[root_tag, 'zz'])
+    if via == 'validated_wrong_tag': return xml_.validated_element(text, tags=list(R.WRONG_TAGS))
+    if via == 'validated_missing_attr': return xml_.validated_element(text, attrs=list(R.MISSING_ATTRS))
     huge = R.VIAS[via][0]
     if via.startswith('rpcreply'):
         from ncclient.operations.rpc import RPCReply
@@ -635,18 +643,22 @@ def run_reparse(case, o):
     parse hands out what an independent parser reads from THAT text, as a new tree that shares no node with any tree
     handed out before and equals (deep snapshot) the first tree ever handed out for that text; no call changes a tree it
     was not given; parse_root agrees with the independent reading at every point of the history; serialised trees read
-    back as the text (until the caller's first edit) / as the tree then is."""
+    back as the text (until the caller's first edit) / as the tree then is.  A call that must raise ('fail' steps: the
+    text is not well-formed / cannot be encoded / is too large without huge_tree / its root does not meet the
+    requirement - decided from the text by R.why_fails) raises the documented exception, hands out nothing, changes no
+    tree; every later call is checked exactly as if it had not happened."""
     from ncclient import xml_
-    texts = case['texts']
+    texts = [R.text_of(t) for t in case['texts']]
     reads, roots = [], []
     for t in texts:
         try: e = X.indep_read(t); reads.append(X.canon(e)); roots.append(e)
-        except ValueError: reads.append(None); roots.append(None)
+        except (ValueError, UnicodeEncodeError): reads.append(None); roots.append(None)
     tops, handed, modelled, edited = [], [], [], []        # per tree handed out
     keep = []                                              # what parse_root returned (kept alive, like a caller would)
     first = {}                                             # (text, class of helper) -> snapshot when first handed out
     table, mops, sel, trace = {}, [], [], []
     mindex = []                                            # tree -> index among the modelled trees
+    after_fail = False
     def node(k, path):
         n = tops[k]
         for i in path: n = n[i]
@@ -657,8 +669,34 @@ def run_reparse(case, o):
         label = 'reparse step %d (%s)' % (si, ' '.join(str(x) for x in st[:3] if not isinstance(x, list)))
         snaps = [H.snapshot(t) for t in tops]
         given = []                                         # the trees this call was given
-        if kind in ('parse', 'nce'):
+        if kind == 'fail':
+            via, ti = st[1], st[2]; text = texts[ti]
+            huge = (R.VIAS.get(via) or R.FAIL_VIAS[via])[0]
+            why = R.why_fails(text, via, huge, roots[ti])
+            if why is None:
+                o.fail(label + ': malformed case: nothing says this call must raise'); return
+            try:
+                e = hand_out(via, text, clark(roots[ti][1]) if roots[ti] else 'a'); got = 'returned %s' % type(e).__name__
+            except Exception as ex: got = exc_name(ex)
+            e = None
+            if got != R.EXC[why]:
+                o.fail(label + ': %s (%s, %d characters) must raise %s' % (via, why, len(text), R.EXC[why]), expected=R.EXC[why], actual=got)
+            # the model: the parser's refusal is the parser table's answer; an exception before / after the parser is RRaised
+            if len(text) <= R.MODEL_BAD_MAX:
+                h = 1 if huge else 0
+                if why in ('syntax', 'oversized'):
+                    if (h, ti) not in table: table[(h, ti)] = R.indep_mnode(text, h)
+                    mops.append([0, h, B(text)])
+                else:
+                    mops.append([3, h, text.encode('utf-8', 'surrogatepass')])
+            o.hist['reparse: raises ' + why + (' >64K' if len(text) > R.CHUNK else '')] = 'yes'
+            o.hist['reparse: raising via ' + via] = 'yes'
+            after_fail = True
+        elif kind in ('parse', 'nce'):
             ti = st[2]; text = texts[ti]; want = reads[ti]
+            if after_fail and kind == 'parse':
+                o.hist['reparse: good parse right after a raising call' + (' (>64K)' if len(text) > R.CHUNK else '')] = 'yes'
+            after_fail = False
             old_nodes = [n for t in tops for n in t.iter()]
             try:
                 if kind == 'parse':
@@ -684,16 +722,18 @@ def run_reparse(case, o):
                     di = R.data_index(roots[ti])
                     if top is e or di >= len(top) or top[di] is not e:
                         o.fail(label + ': data_ele is not the first <data> child of the reply', expected='/%d' % di, actual=str(e.tag))
-                h = 1 if R.VIAS[st[1]][0] else 0
-                if (h, ti) not in table: table[(h, ti)] = R.indep_mnode(text, h)
-                mops.append([0, h, B(text)])
+                is_m = len(text) <= R.MODEL_GOOD_MAX     # (longer documents: the independent reader only)
+                if is_m:
+                    h = 1 if R.VIAS[st[1]][0] else 0
+                    if (h, ti) not in table: table[(h, ti)] = R.indep_mnode(text, h)
+                    mops.append([0, h, B(text)])
             snap = H.snapshot(top)
             cls = (ti, kind)
             if cls not in first: first[cls] = snap
             elif snap != first[cls]:
                 o.fail(label + ': the tree handed out differs from the first one handed out for the same text: ' + str(H.first_diff(first[cls], snap)),
                        expected='what the first call returned', actual=str(H.first_diff(first[cls], snap)))
-            mindex.append(sum(modelled)); tops.append(top); handed.append(e); modelled.append(kind == 'parse'); edited.append(False)
+            mindex.append(sum(modelled)); tops.append(top); handed.append(e); modelled.append(kind == 'parse' and is_m); edited.append(False)
             o.hist['reparse: via ' + (st[1] if kind == 'parse' else 'NCElement')] = 'yes'
         elif kind == 'parse_root':
             ti = st[1]; want = reads[ti]
@@ -763,6 +803,7 @@ def run_reparse(case, o):
     for st in case['steps']:
         if st[0] in ('parse', 'nce'): nsame[st[2]] = nsame.get(st[2], 0) + 1
     o.hist['reparse: most parses of one text'] = str(max(nsame.values())) if nsame else '0'
+    o.hist['reparse: raising calls'] = str(sum(1 for st in case['steps'] if st[0] == 'fail'))
     o.hist['reparse: trees'] = str(len(tops))
 
 
@@ -1072,6 +1113,18 @@ PINNED = [
      'steps': [['parse', 'getreply_data_huge', 0], ['replace', 0, [0], 'urn:ietf:params:xml:ns:netconf:base:1.0', 'urn:v'], ['sub_ele_ns', 0, [0, 0], 'n', 'urn:w', [['a', '1']]],
                ['parse', 'to_ele', 1], ['move', 0, [0, 0], 1, [0]], ['parse_root', 0, ['touched', 'yes']], ['parse', 'rpcreply_huge', 0], ['remove', 2, [0]],
                ['parse', 'getreply_data_huge', 0], ['parse', 'validated_tags', 1], ['nce', True, 0], ['set', 5, [], 'touched', 'yes'], ['nce', True, 0], ['to_xml', 3]]},
+    # calls that raise (every reason, short and > 64K characters, both parser variants), each followed by good parses
+    {'kind': 'reparse', 'texts': ['<a xmlns="urn:u"><b/>t</a>', '<a><b></a>', ['<blob k="1">', ['é€😀x', 17000], [0xDC80], 'rest</blob>'],
+                                  ['<blob>', ['ab', 40000], '</blub>'], ['<a>', [0xD800], '</a>'],
+                                  ['<?xml version="1.0"?><a k="v">', ['ж', 70001], '<c/>tail</a>'], ['<blob>', ['x', 140000], '<b k="', [0xDFFF], '"/></blob>']],
+     'steps': [['fail', 'to_ele', 2, 'encode'], ['parse', 'to_ele', 0], ['fail', 'to_ele_huge_pos', 2, 'encode'], ['parse', 'to_ele_huge', 0],
+               ['set', 0, [], 'touched', 'yes'], ['fail', 'rpcreply', 1, 'syntax'], ['fail', 'validated', 3, 'syntax'], ['parse', 'validated', 0],
+               ['fail', 'validated_wrong_tag', 0, 'requirement'], ['fail', 'validated_missing_attr', 0, 'requirement'], ['parse', 'to_ele_kw_false', 5],
+               ['fail', 'getreply_data_huge', 6, 'encode'], ['fail', 'rpcreply_huge', 4, 'encode'], ['parse', 'rpcreply_huge', 5], ['parse', 'to_ele_huge', 0],
+               ['parse_root', 0, None], ['to_xml', 3], ['fail', 'to_ele_huge', 3, 'syntax'], ['nce', True, 0], ['parse', 'to_ele_huge_pos', 0]]},
+    {'kind': 'reparse', 'texts': ['<rpc-reply xmlns="urn:ietf:params:xml:ns:netconf:base:1.0" message-id="7"><data><c>v</c></data></rpc-reply>',
+                                  ['<a><b/>', ['0123456789', 1000005], '<c/>t</a>']],
+     'steps': [['fail', 'to_ele', 1, 'oversized'], ['parse', 'getreply_data', 0], ['fail', 'rpcreply', 1, 'oversized'], ['parse', 'to_ele_kw_false', 0], ['parse', 'to_ele_huge', 0]]},
     {'kind': 'subtail', 'src': '<a><b>x</b>tail<c/></a>', 'path': [0]},
     {'kind': 'replace', 'src': '<a xmlns:p="urn:u" p:x="1"><?pi z?><p:b/></a>', 'old': 'urn:u', 'new': 'urn:v'},
     {'kind': 'replace', 'src': '<a xmlns:p="urn:u" xmlns:q="urn:v" p:x="1" q:x="2"/>', 'old': 'urn:u', 'new': 'urn:v'},
